@@ -312,7 +312,7 @@ def unit_sketch(shape, k, opts):
 def formula_case(sk, w, k, model):
     model = model or {}
     tree = fsem.concretise(sk.tree, model)
-    names = ['v%d' % i for i in range(k)]
+    names = list(w.names) if getattr(w, 'distinct_names', False) else ['v%d' % i for i in range(k)]
     ids = concrete_ids(model, w)
     return dict(kind='formula', text=fsem.to_text(tree, names), names=names, ids=ids, k=k, tree=fsem.tree_to_json(tree))
 
